@@ -368,6 +368,26 @@ theorem C12_full (simp : BExp → BExp) (hs : SimpSound simp) (K : Kernel) (hK :
         simp only [Bool.not_true, Bool.false_or]
         exact accepted_xonly simp K hK K4 Quirks.none n gs secs hdec s hmem (choices s) r hr ha
 
+/-- **repaired_validated**: the per-instance validator of `C12_partial` never fails on the repaired
+model (it is still run on every case as a cross-check of model and proof) -/
+theorem repaired_validated (simp : BExp → BExp) (hs : SimpSound simp) (K : Kernel) (hK : K.Sound)
+    (K4 : Kernel4) (hK4 : K4.Sound) (q : Quirks) (choices : Section → List Nat) (n : Nat)
+    (gs : List AGate) (secs : List Section) (hdec : decompile q K n gs = .ok secs) :
+    validated Quirks.none n (resynSection n (simplifySection simp K4) choices) secs = true := by
+  unfold validated
+  rw [List.all_eq_true]
+  intro s hmem
+  cases hr : resynSection n (simplifySection simp K4) choices s with
+  | error e => rfl
+  | ok r =>
+    dsimp only
+    cases ha : accept Quirks.none n s r with
+    | false => rfl
+    | true =>
+      simp only [Bool.not_true, Bool.false_or]
+      exact sectionOKb_complete
+        (accepted_section_ok simp hs K hK K4 hK4 q n gs secs hdec s hmem (choices s) r hr ha)
+
 /-- `C12_statement` holds -/
 theorem C12_statement_holds : C12_statement := fun simp hs choices n gs out hwf h =>
   C12_full simp hs rawKernel rawKernel_sound rawKernel4 rawKernel4_sound choices n gs out hwf h
